@@ -34,12 +34,17 @@ impl Prop for C01P {
         for k in [21usize, 33, 40, 48] {
             v.push(format!("extra:wide:{}", k));
         }
+        v.extend(super::array_bfs::chain_units('U', true, tier));
         v
     }
     fn run_unit(&self, unit: &str, ctx: &mut Ctx) {
         if let Some(shape) = unit.strip_prefix("extra:hugezst:") {
             let (c, r) = super::hugezst::parse_shape(shape);
             run_huge_zst(c, r, ctx);
+            return;
+        }
+        if unit.starts_with("extra:chain:") {
+            super::array_bfs::run_chain_unit(unit, ctx);
             return;
         }
         if let Some(k) = unit.strip_prefix("extra:wide:") {
@@ -62,6 +67,7 @@ impl Prop for C01P {
          A case is one (state, action, capacity variant); it is non-trivial when the call was accepted (did not panic); distinct by (state key, action, variant). \
          Outside the cap: (i) arrays of () with close to usize::MAX cells (usize::MAX x 1, 1 x usize::MAX, MAX/k x k, 2^32 x (2^32-1), ...) from init / new / from_vec / from_box, then swap_dimensions, then clear: the shape invariant and the reported lengths of rows(), cells(), col(first), col(last) at every step; \
          (ii) wide and tall arrays (21, 33, 40, 48 lines, exact and spare capacity) through the in-place algorithms - sorts on tie-rich key lines (std's unstable sort only differs from a stable one beyond 20 elements), flips, translate, swaps - against the model. \
+         (iii) two-step (thorough: also three-step, from the shapes up to 2x2) histories on ONE live object (nothing re-materialised between the steps, so spare capacity and stale bits beyond the length are carried over): from the distinct-label array of each shape up to 3x2 / 2x3, every action (exact and spare capacity) followed by every action of the state reached, with the same oracle after each step. \
          Afterwards each state's shortest history is replayed on one live object and must reach the recorded key (traces_validated_against_impl)."
             .into()
     }
